@@ -58,9 +58,26 @@ XEqP(j) == IF j > 1 \/ ZeroXPt[1] # "ok" THEN <<>>
            ELSE << Craft(j, "x=p", Dof(j), ZeroXPt[2], <<4>> \o B32(PP) \o B32(ZeroXPt[2][2]), "c1c3c2"),
                    CraftC(j, "comp-x=p", Dof(j), ZeroXPt[2], <<2 + YBit(ZeroXPt[2])>> \o B32(PP), "c1c3c2"),
                    Craft(j, "x=0-valid", Dof(j), ZeroXPt[2], <<4>> \o B32(BZero) \o B32(ZeroXPt[2][2]), "c1c3c2") >>
+\* VALID points for which an intermediate of the curve test sits on a reduction boundary of the word arithmetic:
+\*   "x2"    the Montgomery form of x^2 is small (< 2^224): the unreduced Montgomery product landed in [p, 2^256)
+\*   "x2+a"  the stored sum x^2 + a lies in [p, 2^256) before its conditional subtraction
+\* x is the square root of the chosen value (when it has one), y the square root of x^3 + ax + b (when it has one); both are genuine curve points
+\* and their ciphertexts -- built with the private key -- must decrypt.
+RM == BMod(BFromBE(<<1>> \o [q \in 1..32 |-> 0]), PP)                    \* 2^256 mod p
+RMInv == BPowMod(RM, BSub(PP, <<2>>), PP)
+PtFromX2(x2) == IF C!Sqrt(x2)[1] = "none" THEN <<"none">> ELSE C!Lift(C!Sqrt(x2)[2], 0)
+RECURSIVE FindPt(_, _, _)
+\* first stored value base + i (i < 60) whose represented x^2 gives a curve point
+FindPt(base, i, lim) == IF i > lim THEN <<"none">> ELSE IF PtFromX2(BMulMod(BAddMod(base, <<i>>, PP), RMInv, PP))[1] = "ok" THEN PtFromX2(BMulMod(BAddMod(base, <<i>>, PP), RMInv, PP)) ELSE FindPt(base, i + 1, lim)
+WinBases == << <<1>>, BFromBE(<<1>> \o [q \in 1..25 |-> 0]),
+               BSubMod(<<3>>, BMulMod(AA, RM, PP), PP), BSubMod(BSub(BFromBE(<<1>> \o [q \in 1..32 |-> 0]), BAdd(PP, <<40>>)), BMulMod(AA, RM, PP), PP) >>
+WinTags == << "valid-window-x2", "valid-window-x2", "valid-window-x2+a", "valid-window-x2+a" >>
+WinCase(j, q) == IF FindPt(WinBases[q], 0, 60)[1] # "ok" THEN <<>>
+                 ELSE << Craft(j, WinTags[q], Dof(j), FindPt(WinBases[q], 0, 60)[2], EncodePoint(FindPt(WinBases[q], 0, 60)[2], FALSE), "c1c3c2") >>
+WinCases(j) == IF j > 1 THEN <<>> ELSE WinCase(j, 1) \o WinCase(j, 2) \o WinCase(j, 3) \o WinCase(j, 4)
 Init == pidx = 0 /\ pout = <<>>
 Next == pidx < NK /\ pidx' = pidx + 1 /\
         pout' = << SpecCt(pidx + 1, "c1c2c3", FALSE), SpecCt(pidx + 1, "c1c3c2", FALSE), SpecCt(pidx + 1, "c1c2c3", TRUE), SpecCt(pidx + 1, "c1c3c2", TRUE) >>
-                \o XPlusP(pidx + 1, Small[pidx + 1]) \o YPlusP(pidx + 1, Small[pidx + 1]) \o OffCurve(pidx + 1) \o NonResCt(pidx + 1) \o XPlusPC(pidx + 1, Small[pidx + 1]) \o XEqP(pidx + 1)
+                \o XPlusP(pidx + 1, Small[pidx + 1]) \o YPlusP(pidx + 1, Small[pidx + 1]) \o OffCurve(pidx + 1) \o NonResCt(pidx + 1) \o XPlusPC(pidx + 1, Small[pidx + 1]) \o XEqP(pidx + 1) \o WinCases(pidx + 1)
 Emit == \A j \in 1..Len(pout) : PrintT(<<"PLAN", ToJson(pout[j])>>)
 =============================================================================
